@@ -29,6 +29,7 @@ func countsStr(m map[multicodec.Code]uint64) string {
 }
 
 func runInspect(input []byte, ro readOpts, full bool) string {
+	noteCase(fmt.Sprintf("inspect full=%d", b2i(full)), ro.String(), input)
 	r, err := carv2.NewReader(bytes.NewReader(input), ro.opts()...)
 	if err != nil {
 		return "r=" + classify(err)
